@@ -100,6 +100,12 @@ Snapshot(cAlive, cEnv, cInv, cFoundOk, lAlive, lEnv, lInv, lFoundOk) ==
   /\ UNCHANGED vars
 
 \* structural invariants of the specification itself
+\* load_object(name) / call_other(name, ...) of an object that is not loaded: if its create() destructs it, the name yields
+\* nothing - no object is handed out, nothing runs in it, it is not found afterwards; otherwise it is loaded, called, found
+LoadNamed(selfDestructs, got, ran, found) ==
+  /\ IF selfDestructs THEN ~got /\ ~ran /\ ~found ELSE got /\ ran /\ found
+  /\ UNCHANGED <<alive, env, stk>>
+
 Forest == \A o \in alive : o \notin Ancestors(o) /\ (env[o] # None => env[o] \in alive)
 DeadClean == \A o \in Names \ alive : env[o] = None
 =============================================================================
